@@ -1,4 +1,5 @@
 import PdfVerif.Model.ROBScanBuf
+import PdfVerif.Model.ROBScanObj
 import PdfVerif.Model.ROBErr
 import PdfVerif.Model.ROBSink
 /-!
@@ -8,7 +9,8 @@ Line-protocol handler for the robustness work package (C05, C19); key `ROB`.
   (faulty) reader.  `mode` ∈ `n|f|o` (no fault / fail from call k / fail only call k), `short` =
   bytes delivered together with the error; `ops` = `;`-separated: `p<n>` PeekN, `b` ReadByte,
   `w` SkipWhiteSpace, `s<hex>` SkipString, `i` ReadInteger, `d` ScanBytes(digits), `o` ReadObject (last
-  operation of a fault-free line only).
+  operation of the line; computed by the buffer-level parser `readObjectBuf` of Model/ROBScanObj.lean
+  on the line's reader, faulty or not).
 * `ROB err <tree> <nwrap>` — error algebra (`IsMalformed`, `errors.Is`, `Wrap`, `Optional`, `IsReadError`).
 * `ROB exit <mode> <tree>` — `shouldExit` of `NewReader`/`MakeReader`.
 * `ROB catalog <seq> <mode> <tree> <hasPages>` — the step after `DecodeCatalog` (`catalogStep`).
@@ -58,18 +60,19 @@ def scanOp (src : Source) (fuel : Nat) (s : SB) (op : String) : String × SB :=
     (s!"d:{n}:{errStr e}", s')
   else ("bad-op", s)
 
-/-- `o` (only as the last operation of a fault-free line): `ReadObject` at the current position.
-    By the refinement theorems the window functions compute the whole-input functions on the view,
-    so the model answers with `parseObject` on the rest of the data. -/
-def scanObject (d : Bytes) (s : SB) : String :=
-  match parseObject (d.drop s.currentPos) with
-  | .ok (_, rest) => s!"o:ok:{d.length - rest.length}"
-  | .error e => s!"o:{e}"
+/-- `o` (last operation of a line): `ReadObject` at the current scanner state, computed by the
+    buffer-level parser over the line's (possibly faulty) reader.  On fault-free readers this is
+    `parseObject` of the unconsumed bytes (Props/C05robobj.lean `readObjectBuf_refines_at`); on faulty
+    readers it is the prediction that `readObject_fault` (Props/C19robobj.lean) is about. -/
+def scanObject (src : Source) (fuel : Nat) (d : Bytes) (s : SB) : String :=
+  match readObjectBuf src fuel (scanFuel d) 0 s with
+  | (s', .ok _) => if s'.panicked then "o:panic@panic" else s!"o:ok:{s'.currentPos}"
+  | (s', .error e) => if s'.panicked then "o:panic@panic" else s!"o:{e}"
 
 def scanOps (src : Source) (fuel : Nat) (d : Bytes := []) : SB → List String → List String
   | _, [] => []
   | s, op :: ops =>
-    if op == "o" then [scanObject d s] else
+    if op == "o" then [scanObject src fuel d s] else
     let (r, s') := scanOp src fuel s op
     if s'.hang then [r ++ "@hang"]
     else if s'.panicked then [r ++ "@panic"]
